@@ -79,12 +79,12 @@ class _TextCueParser:
     self.parent = span
 
     ts = vtt_timestamp_to_secs(token.timestamp)
+    # begin times are relative to the parent: the absolute begin of the span is the sum over its ancestors
     parent_begin = None
     parent = self.parent
     while parent is not None:
-      parent_begin = parent.get_begin()
-      if parent_begin is not None:
-        break
+      if parent.get_begin() is not None:
+        parent_begin = parent.get_begin() + (parent_begin if parent_begin is not None else 0)
       parent = parent.parent()
     if ts is not None and parent_begin is not None and parent_begin <= ts:
       span.set_begin(ts - parent_begin)
